@@ -44,6 +44,8 @@ PLAN = {
     "C01": {"stacks_quick": ["fs", "sql"], "stacks_thorough": ["fs", "sql", "fs-gzip", "fs-zstd", "fs-tink", "ec21", "outbox-fs", "cache-fs", "classes", "deep"],
             "ops": ALL_OPS},
     "C02": {"stacks_quick": ["fs"], "stacks_thorough": ["fs", "sql"],
+            "gen": {"Buckets": '{"b1"}', "Keys": '{"k1"}', "Blobs": '{"c1", "c2", "c3"}', "CTypes": '{"none"}', "MetaSets": '{"none"}',
+                    "TagSets": '{"none", "g1"}', "Classes": '{"none"}', "MaxParts": "2"},
             "ops": ["CreateBucket", "PutVersioning", "PutObject", "GetObject", "DeleteObject", "CopyObject", "AppendObject",
                     "CreateUpload", "UploadPart", "CompleteUpload"]},
     "C04": {"stacks_quick": ["fs"], "stacks_thorough": ["fs", "sql", "fs-tink"],
@@ -53,6 +55,7 @@ PLAN = {
             "ops": ["CreateBucket", "PutVersioning", "PutObject", "CopyObject", "AppendObject", "CreateUpload", "UploadPart",
                     "CompleteUpload", "PutTagging", "Transition", "DeleteObject"]},
     "C13": {"stacks_quick": ["fs"], "stacks_thorough": ["fs", "sql", "classes"],
+            "gen": {"Buckets": '{"b1"}', "Keys": '{"k1", "k2"}', "Blobs": '{"c1", "c2", "c3"}', "MaxParts": "2"},
             "ops": ["CreateBucket", "PutVersioning", "PutObject", "DeleteObject", "CopyObject", "AppendObject", "CreateUpload",
                     "UploadPart", "CompleteUpload", "PutTagging", "Transition"]},
 }
@@ -62,15 +65,52 @@ def tla_set(xs):
     return "{" + ", ".join('"%s"' % x for x in xs) + "}"
 
 
-def gen_programs(ctx, n, depth, ops, seed, tag):
+def gen_programs(ctx, n, depth, ops, seed, tag, extra=None):
     """TLC simulation over PithosGen: n random walks of `depth` calls each."""
+    subst = {"Ops": tla_set(ops), "GenDepth": str(depth)}
+    subst.update(extra or {})
     r = ctx.tlc("PithosGen", "Pithos.Gen.cfg", workers=1, simulate="num=%d" % n, depth=depth + 1, seed=seed, timeout=600,
-                count_mc=False, subst={"Ops": tla_set(ops), "GenDepth": str(depth)})
+                count_mc=False, subst=subst)
     progs = [p for p in r.printed if isinstance(p, list)]
     if len(progs) < n:
         raise vlib.Infra("program generation produced %d of %d programs (%s)\n%s" % (len(progs), n, r.outcome, r.output[-2000:]))
     ctx.transitions += r.generated
     return progs[:n]
+
+
+# per deviation tag: the operations and alphabets among which TLC searches (breadth first) for the
+# shortest program that makes the deviation observable (PithosWitness.tla)
+WITNESS_CFG = {
+    "D-C02-promote-created-at": {"Ops": ["CreateBucket", "PutVersioning", "PutObject", "DeleteObject"]},
+    "D-C13-mtime-bump-on-latest-flip": {"Ops": ["CreateBucket", "PutVersioning", "PutObject"]},
+    "D-C13-mtime-bump-on-transition": {"Ops": ["CreateBucket", "PutObject", "Transition"], "Classes": '{"none", "GLACIER"}'},
+    "D-C13-mtime-bump-on-tagging": {"Ops": ["CreateBucket", "PutObject", "PutTagging"], "TagSets": '{"none", "g1"}'},
+    "D-C13-append-suspended-in-place": {"Ops": ["CreateBucket", "PutVersioning", "PutObject", "AppendObject"]},
+    "D-C11-append-versioned-drops-meta": {"Ops": ["CreateBucket", "PutVersioning", "PutObject", "AppendObject"],
+                                          "TagSets": '{"none", "g1"}'},
+}
+
+
+def witness_programs(ctx):
+    """For every open deviation of this module: TLC finds the shortest programs that take it."""
+    out = []
+    for f in ctx.known_findings():
+        tag = f["tag"]
+        if f.get("status") != "open" or f.get("property") != ctx.prop or tag not in WITNESS_CFG:
+            continue
+        cfg = dict(WITNESS_CFG[tag])
+        subst = {"Deviations": '{"%s"}' % tag, "Blobs": '{"c1", "c2"}', "MetaSets": '{"none"}', "TagSets": '{"none"}',
+                 "Classes": '{"none"}'}
+        subst["Ops"] = tla_set(cfg.pop("Ops"))
+        subst.update(cfg)
+        r = ctx.tlc("PithosWitness", "Pithos.Witness.cfg", workers=4, timeout=600, subst=subst)
+        progs = [p for p in r.printed if isinstance(p, list)]
+        ctx.log("witness search %s: %d program(s), %d states, %.1fs" % (tag, len(progs), r.distinct, r.wall))
+        if not progs:
+            raise vlib.Infra("the model with deviation %s shows no observable difference within the witness bounds "
+                             "(%s) - the finding cannot be exercised" % (tag, r.outcome))
+        out += [(tag, p) for p in progs[:2]]
+    return out
 
 
 def validate(ctx, trace_file, deviations):
@@ -214,7 +254,7 @@ def run(ctx):
     nterms = 0
     opcount = {}
     for si, stack in enumerate(stacks):
-        progs = gen_programs(ctx, nprog, depth, plan["ops"], ctx.seed * 1000 + si, stack)
+        progs = gen_programs(ctx, nprog, depth, plan["ops"], ctx.seed * 1000 + si, stack, plan.get("gen"))
         pf = ctx.path("programs-%s.ndjson" % stack)
         vlib.write_ndjson(pf, [{"id": i + 1, "calls": p} for i, p in enumerate(progs)])
         tf = ctx.path("trace-%s.ndjson" % stack)
@@ -229,6 +269,18 @@ def run(ctx):
             ctx.sample({"stack": stack, "program": progs[0][:8]})
         et = run_tv(ctx, tf, stack)
         nterms += check_digests(ctx, drv, et, stack)
+    # 3. counterexample-guided witness programs for every open finding of this module
+    wit = witness_programs(ctx)
+    if wit:
+        pf = ctx.path("programs-witness.ndjson")
+        vlib.write_ndjson(pf, [{"id": 9000 + i, "calls": p} for i, (t, p) in enumerate(wit)])
+        tf = ctx.path("trace-witness.ndjson")
+        ctx.run([drv, "run", stacks[0], ctx.path("state-witness"), pf, tf], timeout=600)
+        before = dict(ctx.findings_seen)
+        run_tv(ctx, tf, "witness")
+        ctx.traces += len(wit)
+        ctx.extra["witness_programs"] = [{"tag": t, "program": p} for t, p in wit][:6]
+        ctx.extra["witness_reproduced"] = {t: ctx.findings_seen.get(t, 0) - before.get(t, 0) > 0 for t, _ in wit}
     ctx.extra["distinct_nontrivial"] = ctx.traces
     ctx.extra["calls_by_op"] = opcount
     ctx.extra["etag_terms_recomputed"] = nterms
